@@ -177,6 +177,9 @@ def run(db, chk):
                "the worker pool hands every block to exactly one worker and returns after all of them "
                "finished (shared with C11: hand-off orders, pause / resume handshake, block partition)",
                min_instances=10)
+    chk.absorb(db, "C09", {"C09-P2"}, "C10-X6", "neither router body keeps state of its own between updates (shared with "
+               "C09-P2): a table cached by one body only makes the two bodies disagree after a reconfiguration",
+               pred=lambda o: "single_flow_router::apply" in o["instance"], min_instances=6)
     chk.absorb(db, "C06", {"C06-F3"}, "C10-X5", "breadth-first levels never contain a node together with one "
                "of its receivers (shared with C06-F3): level-parallel kernels read finished receivers only",
                min_instances=30)
